@@ -78,6 +78,8 @@ def canon(v, _path=()):
                               for k, x in sorted(v.items(), key=lambda kv: str(kv[0]))) + '}'
     if isinstance(v, dyn.Obj):
         return 'Obj' + canon(v.__dict__, _path)
+    if isinstance(v, dyn.Unser):
+        return '<unser>'
     if isinstance(v, BaseException):
         return 'exc:' + type(v).__name__
     if isinstance(v, type):
